@@ -133,6 +133,7 @@ TRUSTED["C01"] = [
     "complex logarithm, square root and pi as axiomatised / uninterpreted functions; |z| = sqrt(re^2 + im^2)",
     "np.argmax as a first-maximiser contract; np.dot at the matrix-term level when an operand is a kernel result",
     "modular use of the ac2mp contract at its call site in SSI_poles",
+    "numpy.linalg.svd / qr / inv / pinv as uninterpreted kernels on matrix terms; slices and products of kernel results as matrix terms (slice normalisation, extensionality lemma)",
 ]
 
 TRUSTED["C05"] = [
@@ -225,7 +226,8 @@ NOT_DECIDED = {
             "stand-in only, not under a deductive contract",
             "that every preprocessing step of MultiSetup_PreGER re-establishes the split is proved under C14 (Inv_M)"],
     "C01": ["that order 2m contains exactly the system's m conjugate pairs (shift-invariance theorem + floating-point conditioning): bounded stand-in only",
-            "the realisation routines SSI / SSI_fast themselves (SVD, QR, pseudo-inverse): exercised by the bounded stand-in, not under a deductive contract",
+            "that the shift-invariance solve of the realisation (proved structurally: SSI_fast / SSI contracts) yields the system matrices of an exact rank-2m Hankel matrix is the "
+            "Ho-Kalman theorem - a trusted lemma about SVD / QR / pseudo-inverse, exercised only by the bounded stand-in",
             "the hard-criteria filtering between SSI_poles and the stored tables is C09's subject"],
     "C05": ["that pLSCF's normal equations reproduce the coefficients (least-squares theorem + conditioning): bounded stand-in only",
             "the 'cor' shift of the poles by 1/tau is taken as the code writes it (the property speaks about the plain map)"],
